@@ -79,3 +79,80 @@ Definition pds_t_filter_stmt : Prop :=
 (* "exactly" fails for the simple-path reading *)
 Definition pds_exact_refuted_stmt : Prop :=
   exists g x v, In x (V g) /\ In v (pds_model g x None) /\ ~ pds_def_path g x None v.
+
+(* ================= second batch: exact oracle, endpoint / block / lag variants end to end, time-series nodes, as-is ====== *)
+
+(* "y is given => y is connected to x" (otherwise every variant returns the empty set) *)
+Definition guard_ok (g : mgraph) (x : nat) (yo : option nat) : Prop :=
+  match yo with Some y => connected g x y | None => True end.
+
+(* the brute-force oracle of the simple-path reading is exact (sound + complete), with and without an endpoint *)
+Definition pds_def_path_dec_sound_stmt : Prop :=
+  forall g x yo v, In v (pds_def_path_dec g x yo) -> pds_def_path g x yo v.
+Definition pds_def_path_dec_exact_stmt : Prop :=
+  forall g x yo v, In x (V g) -> guard_ok g x yo -> (In v (pds_def_path_dec g x yo) <-> pds_def_path g x yo v).
+
+(* the two readings differ, as a statement about the Props alone *)
+Definition pds_walk_path_differ_stmt : Prop :=
+  exists g x v, In x (V g) /\ pds_def_walk g x None v /\ ~ pds_def_path g x None v.
+
+(* end to end "never smaller": pds_path = definition intersected with the block, and the lag-filtered variants *)
+Definition pds_path_never_smaller_stmt : Prop :=
+  forall g x y v, NoDup (V g) -> In x (V g) -> In y (V g) ->
+    pds_def_path g x (Some y) v -> on_block g x y v -> In v (pds_path_model g x y).
+Definition pds_t_never_smaller_stmt : Prop :=
+  forall g lags x y v, In x (V g) -> connected g x y ->
+    pds_def_path g x (Some y) v -> lag lags v <= Nat.max (lag lags x) (lag lags y) -> In v (pds_t_model g lags x y).
+Definition pds_t_path_never_smaller_stmt : Prop :=
+  forall g lags x y v, NoDup (V g) -> In x (V g) -> In y (V g) ->
+    pds_def_path g x (Some y) v -> on_block g x y v -> lag lags v <= Nat.max (lag lags x) (lag lags y) ->
+    In v (pds_t_path_model g lags x y).
+
+(* ---- time-series nodes (variable, |lag|) with |lag| <= L, encoded into nat by  (a, l) |-> a * (L+1) + l ---- *)
+Definition ts_enc (L : nat) (n : nat * nat) : nat := fst n * S L + snd n.
+Definition ts_var (L : nat) (v : nat) : nat := v / S L.
+Definition ts_lag (L : nat) (v : nat) : nat := v mod S L.
+(* the lag list handed to run_case for a graph on the nodes 0 .. N-1 (harness: [i % (L+1) for i in range(N)]) *)
+Definition ts_lags (L N : nat) : list nat := map (ts_lag L) (seq 0 N).
+
+Definition ts_enc_bijection_stmt : Prop :=
+  forall L, (forall a l, l <= L -> ts_var L (ts_enc L (a, l)) = a /\ ts_lag L (ts_enc L (a, l)) = l) /\
+            (forall v, ts_enc L (ts_var L v, ts_lag L v) = v /\ ts_lag L v <= L).
+
+(* pds_t / pds_t_path keep exactly the nodes of pds / pds_path whose |lag| does not exceed max(|lag x|, |lag y|) *)
+Definition pds_t_ts_spec_stmt : Prop :=
+  forall g L N x y v, (forall w, In w (V g) -> w < N) -> In x (V g) -> y < N ->
+    (In v (pds_t_model g (ts_lags L N) x y) <->
+       In v (pds_model g x (Some y)) /\ ts_lag L v <= Nat.max (ts_lag L x) (ts_lag L y)) /\
+    (In v (pds_t_path_model g (ts_lags L N) x y) <->
+       In v (pds_path_model g x y) /\ ts_lag L v <= Nat.max (ts_lag L x) (ts_lag L y)).
+(* the same, reading the nodes as pairs *)
+Definition pds_t_pairs_spec_stmt : Prop :=
+  forall g L N xa xl ya yl a l, (forall w, In w (V g) -> w < N) -> In (ts_enc L (xa, xl)) (V g) -> ts_enc L (ya, yl) < N ->
+    xl <= L -> yl <= L -> l <= L ->
+    (In (ts_enc L (a, l)) (pds_t_model g (ts_lags L N) (ts_enc L (xa, xl)) (ts_enc L (ya, yl))) <->
+       In (ts_enc L (a, l)) (pds_model g (ts_enc L (xa, xl)) (Some (ts_enc L (ya, yl)))) /\ l <= Nat.max xl yl).
+
+(* ---- /repo's search as it is: every triple is tested with x in the place of the previous node ---- *)
+Definition asis_walk (g : mgraph) (x : nat) (yo : option nat) (t : list nat) : Prop :=
+  t <> [] /\ incl t (V g) /\ (forall w, In w t -> w <> x /\ avoids yo w) /\
+  adj_chain g (x :: t) /\ chain (fun c w => triple_ok g x c w = true) t.
+Definition pds_def_asis (g : mgraph) (x : nat) (yo : option nat) (v : nat) : Prop :=
+  exists t, asis_walk g x yo t /\ last t x = v.
+
+Definition pds_asis_spec_stmt : Prop :=
+  forall g x yo v, In x (V g) -> guard_ok g x yo -> (In v (pds_asis g x yo) <-> pds_def_asis g x yo v).
+
+(* closed form: the neighbours of x and the far ends of colliders x *-> c <-* v at a neighbour c; nothing further away *)
+Definition is_seed (g : mgraph) (x : nat) (yo : option nat) (v : nat) : Prop :=
+  In v (V g) /\ adjacent g x v = true /\ v <> x /\ avoids yo v.
+Definition pds_asis_depth2_stmt : Prop :=
+  forall g x yo v, In x (V g) -> guard_ok g x yo ->
+    (In v (pds_asis g x yo) <->
+       is_seed g x yo v \/
+       (In v (V g) /\ v <> x /\ avoids yo v /\
+        exists c, is_seed g x yo c /\ adjacent g c v = true /\ collider3 g x c v = true)).
+
+(* the as-is result is always inside the walk definition (never an extra node), and can be strictly smaller (Refuted.v) *)
+Definition pds_asis_subset_stmt : Prop :=
+  forall g x yo v, In x (V g) -> In v (pds_asis g x yo) -> In v (pds_model g x yo).
